@@ -52,6 +52,13 @@ func (f *vout) Call(s *slip.Scope, args slip.List, depth int) slip.Object {
 func initWorker() {
 	// redefinition warnings of defun go to *error-output*
 	slip.ErrorOutput = &slip.OutputStream{Writer: io.Discard}
+	defer func() {
+		// helper macro of the reeval templates: a template with a binding and comma-free nested calls
+		sc := slip.NewScope()
+		_ = sl.Catch(func() {
+			slip.ReadString("(defmacro c8-mac (a b) `(let ((v ,a)) (+ v (* v 2) (car (list ,b (+ v 1))))))", sc).Eval(sc, nil)
+		})
+	}()
 	slip.Define(
 		func(args slip.List) slip.Object {
 			f := vtr{Function: slip.Function{Name: "vtr", Args: args}}
@@ -96,7 +103,24 @@ func newWorld(budget int) *world {
 	return w
 }
 
-func (w *world) name(src string) string { return strings.ReplaceAll(src, "@", w.sfx) }
+func (w *world) name(src string) string { return instantiate(src, w.sfx) }
+
+// instantiate replaces the name marker @ by a prefix; ,% in case texts is the
+// comma-at of macro templates (written that way because @ is the marker).
+func instantiate(src, prefix string) string {
+	return strings.ReplaceAll(strings.ReplaceAll(src, "@", prefix), ",%", ",@")
+}
+
+// parse reads case text for the reference evaluator (names get the prefix r_).
+func parse(src string) []*ref.Node { return ref.MustParse(instantiate(src, "r_")) }
+
+func macroSrc(k int, m Mac, ver int) string {
+	ps := strings.Join(m.Params, " ")
+	if m.Rest != "" {
+		ps += " &rest " + m.Rest
+	}
+	return fmt.Sprintf("(defmacro @mac%d (%s) %s)", k, ps, m.Vers[ver])
+}
 
 // observation of one evaluation
 type obs struct {
@@ -151,12 +175,17 @@ func refRun(m *ref.Machine, main *ref.Node) (want, error) {
 
 func refDefine(m *ref.Machine, c Case) error {
 	for k, v := range c.Globals {
-		if _, err := m.Top(ref.MustParse(globalSrc(k, v))[0]); err != nil {
+		if _, err := m.Top(parse(globalSrc(k, v))[0]); err != nil {
+			return err
+		}
+	}
+	for k, mac := range c.Macs {
+		if _, err := m.Top(parse(macroSrc(k, mac, 0))[0]); err != nil {
 			return err
 		}
 	}
 	for i, fn := range c.Fns {
-		if _, err := m.Top(ref.MustParse(defunSrc(i, fn.Vers[0]))[0]); err != nil {
+		if _, err := m.Top(parse(defunSrc(i, fn.Vers[0]))[0]); err != nil {
 			return err
 		}
 	}
@@ -207,10 +236,10 @@ func fwdInfo(c Case, perm []int) (fwdArgs, fwdAny bool, fwd []int) {
 	}
 	fwd = make([]int, len(c.Fns))
 	for i, fn := range c.Fns {
-		calls := ref.Calls(ref.MustParse(fn.Vers[0].Body), "@f")
+		calls := ref.Calls(parse(fn.Vers[0].Body), "r_f")
 		for name, argcs := range calls {
 			var j int
-			_, _ = fmt.Sscanf(name, "@f%d", &j)
+			_, _ = fmt.Sscanf(name, "r_f%d", &j)
 			if pos[j] < pos[i] {
 				continue
 			}
@@ -263,6 +292,29 @@ func genC(r *rand.Rand, i int, tier string) Case {
 // program per listed finding, so that the findings are re-observed (and
 // their signatures produced) whatever the seed.
 var probes = []Case{
+	{ // a macro argument form that is evaluated and also handed out as quoted data
+		Kind: "probe",
+		Macs: []Mac{{Kind: "quote", Ret: "list", Params: []string{"@ua"},
+			Vers: []string{"`(let ((@v ,@ua)) (list (quote ,@ua) @v (list (+ @v 1) (quote (k 1)))))"}}},
+		Fns: []Fn{
+			{Ret: "list", Rec: -1, Vers: []Ver{{Params: []string{"@a"}, Body: "(list @a (@mac0 (* (+ 1 1) 3)))"}}},
+			{Ret: "int", Rec: -1, Vers: []Ver{{Params: []string{"@k"}, Body: "(+ @k 1)"}}},
+		},
+		Main: "(list (@f0 1) (@mac0 (+ 1 (* 2 3))) (@f1 2))", K: 3,
+		Hist: []Step{{Op: "run", Obj: -1}, {Op: "run", Obj: 0}},
+	},
+	{ // a macro whose template binds v and holds comma-free sub-lists with nested calls on v; used at
+		// several sites, from two functions and the main form, under callers' variables named v; redefined
+		Kind: "probe",
+		Macs: []Mac{{Kind: "expr", Ret: "int", Params: []string{"@ua", "@ub"},
+			Vers: []string{"`(let ((@v ,@ua)) (+ @v (* @v 2) ,@ub))", "`(let ((@v ,@ua)) (- (* @v (+ @v 1)) ,@ub))"}}},
+		Fns: []Fn{
+			{Ret: "list", Rec: -1, Vers: []Ver{{Params: []string{"@v"}, Body: "(list (@mac0 @v 1) (@mac0 (+ @v 1) @v) (@f1 @v))"}}},
+			{Ret: "int", Rec: -1, Vers: []Ver{{Params: []string{"@k"}, Body: "(let ((@v 50)) (+ @v (@mac0 @k @v)))"}}},
+		},
+		Main: "(list (@f0 2) (@mac0 3 4) (@f1 5) (@mac0 3 4))", K: 4,
+		Hist: []Step{{Op: "run", Obj: -1}, {Op: "run", Obj: 0}, {Op: "remac", Fn: 0, Ver: 1}, {Op: "run", Obj: 0}, {Op: "run", Obj: -1, Compiled: true}},
+	},
 	{ // a defun inside a let that uses the let's variable, under a name the caller also uses; redefined once
 		Kind: "probe",
 		Fns: []Fn{
@@ -351,7 +403,7 @@ func exec(x *fw.Ctx, c Case) {
 		return
 	}
 	n := len(c.Fns)
-	mainNode := ref.MustParse(c.Main)[0]
+	mainNode := parse(c.Main)[0]
 	x.Cover("kind:" + c.Kind)
 	x.Cover(fmt.Sprintf("defs:%d", n))
 	for _, fn := range c.Fns {
@@ -363,6 +415,20 @@ func exec(x *fw.Ctx, c Case) {
 		default:
 			x.Cover("fn:mutually-recursive")
 		}
+	}
+	// a macro that both evaluates its argument form and hands it out as quoted data
+	quotedCode := false
+	for _, mac := range c.Macs {
+		x.Cover("macro:" + mac.Kind)
+		quotedCode = quotedCode || mac.Kind == "quote"
+	}
+	if 0 < len(c.Macs) {
+		x.Cover("program:with-macros")
+		uses := strings.Count(c.Main, "(@mac")
+		for _, fn := range c.Fns {
+			uses += strings.Count(fn.Vers[0].Body, "(@mac")
+		}
+		x.CoverN("macro-use-sites", uses)
 	}
 	nested := false // some original definition is written inside let / let*
 	for _, fn := range c.Fns {
@@ -418,7 +484,7 @@ func exec(x *fw.Ctx, c Case) {
 	x.CoverN("ref:trace-markers", len(wantA[0].trace))
 
 	mainArgs := false
-	for _, argcs := range ref.Calls([]*ref.Node{mainNode}, "@f") {
+	for _, argcs := range ref.Calls([]*ref.Node{mainNode}, "r_f") {
 		for _, a := range argcs {
 			if 0 < a {
 				mainArgs = true
@@ -429,7 +495,7 @@ func exec(x *fw.Ctx, c Case) {
 	lamfree := ref.LambdaHeadFree([]*ref.Node{mainNode})
 	for _, fn := range c.Fns {
 		for _, v := range fn.Vers {
-			if ref.LambdaHeadFree(ref.MustParse(v.Body)) {
+			if ref.LambdaHeadFree(parse(v.Body)) {
 				lamfree = true
 			}
 		}
@@ -439,7 +505,16 @@ func exec(x *fw.Ctx, c Case) {
 	var fails []failure
 	okCount, total := 0, 0
 	fwdCache := map[string]bool{}
+	observeOnly := false
 	record := func(perm []int, mode, at string, rebind int, o obs, w want, src string) {
+		if observeOnly {
+			if kind, _ := judge(o, w); kind == "" {
+				x.Cover("macro-after-users (not judged): agrees")
+			} else {
+				x.Cover("macro-after-users (not judged): differs, " + strings.SplitN(kind, ":", 2)[0])
+			}
+			return
+		}
 		total++
 		pk := fmt.Sprint(perm)
 		fa, has := fwdCache[pk]
@@ -458,6 +533,9 @@ func exec(x *fw.Ctx, c Case) {
 			rd = "2+"
 		}
 		cell := fmt.Sprintf("lamfree=%s fwdargs=%s rebind=%s", yn(lamfree), yn(fa), rd)
+		if quotedCode {
+			cell = "quoted-code=y " + cell
+		}
 		x.Cover("evals: " + cell)
 		kind, detail := judge(o, w)
 		if kind == "" {
@@ -487,7 +565,17 @@ func exec(x *fw.Ctx, c Case) {
 	for pi, perm := range ps {
 		fa, fany, _ := fwdInfo(c, perm)
 		x.Cover("order:fwdargs=" + yn(fa) + ",fwdany=" + yn(fany))
-		for _, mode := range modes {
+		runModes := modes
+		if 0 < len(c.Macs) && (pi == 0 || pi == len(ps)-1) {
+			// macros written after the functions that use them: a use compiled before
+			// its macro exists has no defined meaning, so these runs are observed and
+			// counted but not judged
+			runModes = append(append([]string{}, modes...), "repl/macros-last", "compile/macros-last")
+		}
+		for _, mode := range runModes {
+			macrosLast := strings.HasSuffix(mode, "/macros-last")
+			mode = strings.TrimSuffix(mode, "/macros-last")
+			observeOnly = macrosLast
 			if mode == "load" && pi != 0 && pi != len(ps)-1 && pi != len(ps)/2 {
 				continue
 			}
@@ -503,8 +591,18 @@ func exec(x *fw.Ctx, c Case) {
 			for k, v := range c.Globals {
 				forms = append(forms, w.name(globalSrc(k, v)))
 			}
+			if !macrosLast {
+				for k, mac := range c.Macs {
+					forms = append(forms, w.name(macroSrc(k, mac, 0)))
+				}
+			}
 			for _, i := range perm {
 				forms = append(forms, w.name(defunSrc(i, c.Fns[i].Vers[0])))
+			}
+			if macrosLast {
+				for k, mac := range c.Macs {
+					forms = append(forms, w.name(macroSrc(k, mac, 0)))
+				}
 			}
 			mainSrc := w.name(c.Main)
 			whole := strings.Join(forms, "\n") + "\n" + mainSrc
@@ -518,7 +616,12 @@ func exec(x *fw.Ctx, c Case) {
 			case "repl", "crepl", "evalfn", "premain":
 				var code slip.Code
 				if mode == "premain" {
-					// the calling form is compiled before any callee exists
+					// the calling form is compiled before any callee exists; its macros
+					// are defined first (a use compiled before its macro has no defined meaning)
+					for k, mac := range c.Macs {
+						msrc := w.name(macroSrc(k, mac, 0))
+						_ = w.do(func() slip.Object { return slip.ReadString(msrc, w.scope).Eval(w.scope, nil) })
+					}
 					if o := w.do(func() slip.Object {
 						code = slip.ReadString(mainSrc, w.scope)
 						code.Compile()
@@ -630,6 +733,7 @@ func exec(x *fw.Ctx, c Case) {
 			}
 		}
 	}
+	observeOnly = false
 
 	// ---------- family B: histories with redefinition ----------
 	// callee-first order (the last permutation) and caller-first order (the
@@ -655,6 +759,9 @@ func exec(x *fw.Ctx, c Case) {
 			var forms []string
 			for k, v := range c.Globals {
 				forms = append(forms, w.name(globalSrc(k, v)))
+			}
+			for k, mac := range c.Macs {
+				forms = append(forms, w.name(macroSrc(k, mac, 0)))
 			}
 			for _, i := range perm {
 				forms = append(forms, w.name(defunSrc(i, c.Fns[i].Vers[0])))
@@ -701,7 +808,7 @@ func exec(x *fw.Ctx, c Case) {
 				switch st.Op {
 				case "redef":
 					src := w.name(defunSrc(st.Fn, c.Fns[st.Fn].Vers[st.Ver]))
-					if _, err := hm.Top(ref.MustParse(defunSrc(st.Fn, c.Fns[st.Fn].Vers[st.Ver]))[0]); err != nil {
+					if _, err := hm.Top(parse(defunSrc(st.Fn, c.Fns[st.Fn].Vers[st.Ver]))[0]); err != nil {
 						x.Fail("harness: reference cannot redefine", "%s", err)
 						return
 					}
@@ -719,6 +826,27 @@ func exec(x *fw.Ctx, c Case) {
 					})
 					if o.err != nil || o.over {
 						record(perm, "hist-"+dmode, "redefine", maxRedef, o, want{val: "\x00"}, strings.Join(log, " ;; "))
+						dead = true
+					}
+				case "remac":
+					text := macroSrc(st.Fn, c.Macs[st.Fn], st.Ver)
+					src := w.name(text)
+					if _, err := hm.Top(parse(text)[0]); err != nil {
+						x.Fail("harness: reference cannot redefine macro", "%s", err)
+						return
+					}
+					log = append(log, fmt.Sprintf("[macro redefined compiled=%v] %s", st.Compiled, src))
+					redefs++
+					x.Cover("hist:macro-redefinition")
+					o = w.do(func() slip.Object {
+						code := slip.ReadString(src, w.scope)
+						if st.Compiled {
+							code.Compile()
+						}
+						return code.Eval(w.scope, nil)
+					})
+					if o.err != nil || o.over {
+						record(perm, "hist-"+dmode, "redefine-macro", maxRedef, o, want{val: "\x00"}, strings.Join(log, " ;; "))
 						dead = true
 					}
 				case "run":
@@ -789,16 +917,22 @@ func init() {
 	fw.Register(fw.Spec[Case]{
 		ID: "C08",
 		Rule: "case kinds: (A) programs - " +
-			"4 fixed probe programs (defun inside a let using its variable under a name the caller also uses and redefined; forward call with arguments; caller " +
+			"6 fixed probe programs (macro argument evaluated and quoted; macro whose template binds v around comma-free nested calls, used at several sites " +
+			"and redefined; defun inside a let using its variable under a name the caller also uses and redefined; forward call with arguments; caller " +
 			"created between two redefinitions; lambda head with a bare outer variable), then seeded programs of 2-4 defuns (DAG calls, self recursion, mutual " +
 			"recursion on a decreasing counter; arguments, let/let*, if/cond/when/unless, and/or, setq, dotimes, funcall/apply, lambda forms, list building, trace " +
 			"markers, 0-3 global variables; one definition in three is written inside let / let* / nested lets and uses their variables, half of which are named " +
-			"like the parameters of callers) plus a main form; each program is run under the orders of its defuns (all; quick tier: 10 of the 24 orders of 4 " +
+			"like the parameters of callers; two programs in five also have 1-2 defmacros with backquote templates - comma, comma-at of a &rest body that " +
+			"uses the template's variable, (quote ,arg), comma-free sub-lists with nested calls on a variable bound inside the expansion, a macro used inside " +
+			"another's template - used from functions and the main form) plus a main form; macros are written before the functions (a use compiled before its " +
+			"macro has no defined meaning; two orders per program are also run with the macros last, counted but not judged); each program is run under the orders of its defuns (all; quick tier: 10 of the 24 orders of 4 " +
 			"defuns) x 8 delivery modes (form by form, form by form compiled, whole Code evaluated, Code.Compile, CompileString - not for programs with a defun " +
 			"inside let -, (eval 'form), main form compiled before its callees exist, load of a file) x k=2..5 (one case in 12: up to 100) evaluations of the same " +
 			"code object, and under 4 redefinition histories (fresh / re-used, compiled / list-form main objects, 1-3 redefinitions with renamed parameters and " +
-			"changed enclosing lets; every second history redefines one function repeatedly); every name is fresh per treatment. One case in six has only " +
-			"parameterless functions (recursion on a global counter). (funcall f) without arguments is never generated (C04). " +
+			"changed enclosing lets, one step in three of them a macro redefinition; every second history redefines one function repeatedly); every name is fresh per treatment. One case in six has only " +
+			"parameterless functions (recursion on a global counter). (funcall f) without arguments is never generated (C04); 'x inside a backquote template is " +
+			"never generated (slip drops the quote, a reader matter), (quote x) is. Listed finding: programs with a macro that evaluates and quotes its argument " +
+			"(quoted-code=y, one macro in six). " +
 			"(B) reeval, a model-free relation monitor over the forms that receive raw list arguments (enumerated at run time from FuncDoc kind / SkipEval; the ones " +
 			"without a committed argument template are counted as reeval-not-templated:<name>): a deterministic block (every template on leaf data, every ordered pair " +
 			"of templates) then seeded compositions of depth <= 3 with all arguments written as lists and all data bound inside the form; the same Code object " +
